@@ -125,12 +125,16 @@ func TestC14Rapid(t *testing.T) {
 				gp = append(gp, int64(rapid.SampledFrom([]int{1, 3, 10}).Draw(rt, "gpower")))
 			}
 		}
+		valWorldLongOps = rapid.IntRange(0, 3).Draw(rt, "longOperators") == 0
+		if valWorldLongOps {
+			c.Class("operators-with-32-byte-addresses")
+		}
 		valWorldSecp = rapid.IntRange(0, 3).Draw(rt, "secpKeys") == 0
 		if valWorldSecp {
 			c.Class("chain-admitting-secp256k1-consensus-keys")
 		}
 		w, err := newValWorld(nGen, maxVals, uint32(rapid.SampledFrom([]int{0, 2, 100}).Draw(rt, "retention")), gp...)
-		valWorldSecp = false
+		valWorldSecp, valWorldLongOps = false, false
 		if err != nil {
 			rt.Fatalf("genesis: %v", err)
 		}
@@ -221,6 +225,11 @@ func TestC14Rapid(t *testing.T) {
 					due = false
 				}
 				if due {
+					if rapid.IntRange(0, 3).Draw(rt, "optimisticEndBlock") == 0 {
+						// the end of the plan's block first runs on a branch that is thrown away, then for real
+						branchL2(l2, func(b *henv.L2) { _, _ = b.EndBlock() })
+						c.Class("plan-height-executed-on-a-discarded-branch-first")
+					}
 					nt := len(w.bonded) >= 2 || w.blockOps > 0
 					if err := w.endBlockWithPlan(p); err != nil {
 						rt.Fatalf("C14 violated at plan height %d: %v\nhistory:\n%s", h, err, w.history())
